@@ -746,6 +746,7 @@ func BlindDocument(t *rapid.T, s *ref.Schema) *ref.Doc {
 		}
 	}
 	sort.Strings(dirPool)
+	dirPool = append(dirPool, "skip", "include", "nosuchdirective")
 	fieldPool = append(fieldPool, "__typename", "__schema", "__type", "nosuch")
 	typePool = append(typePool, "NoSuchType")
 	argPool = append(argPool, "if", "nosucharg")
